@@ -247,8 +247,17 @@ func generate(family string, n int, seed uint64, out *bufio.Writer) {
 			p("reenc %s %s %s %d", kind, hexs(top.enc()), mode, 1+r.intn(3))
 		}
 	case "hist":
+		// Headers.UnmarshalFromRaw, both buckets in one call: a good pair, then a pair whose second
+		// bucket is refused / whose buckets are fine one by one but hold IV and Partial IV together
+		for _, mode := range []string{"", " dirty"} {
+			p("hist hdrs 43a10126~a1044131,43a10127~a1046131%s", mode)
+			p("hist hdrs 43a10126~a1044131,44a1054101~a1064102%s", mode)
+			p("hist hdrs 43a10126~a1044131,43a10127~a104413200%s", mode)
+			p("hist hdrs 43a10126~a1044131,43a1012700~a1044132%s", mode)
+			p("hist hdrs 43a10126~a1044131,40~a0,43a10138~a0,~,43a10126~%s", mode)
+		}
 		for i := 0; i < n; i++ {
-			kind := []string{"s1", "s1u", "sm", "sig", "csig", "ph", "uh"}[r.intn(7)]
+			kind := []string{"s1", "s1u", "sm", "sig", "csig", "ph", "uh", "hdrs"}[r.intn(8)]
 			steps := []string{}
 			k := 1 + r.intn(6)
 			for j := 0; j < k; j++ {
@@ -258,6 +267,16 @@ func generate(family string, n int, seed uint64, out *bufio.Writer) {
 					continue
 				}
 				switch kind {
+				case "hdrs":
+					h := randHeaders(r, wcfg)
+					pw, uw := h.protWire(), entriesWire(h.unprot)
+					if r.chance(1, 4) {
+						mutateTree(r, pw)
+					}
+					if r.chance(1, 3) {
+						mutateTree(r, uw)
+					}
+					steps = append(steps, hexs(pw.enc())+"~"+hexs(uw.enc()))
 				case "ph":
 					h := randHeaders(r, wcfg)
 					w := h.protWire()
@@ -330,6 +349,21 @@ func generate(family string, n int, seed uint64, out *bufio.Writer) {
 			genSMOp(r, gcfg, p)
 		}
 	case "cs":
+		// a COSE_Sign parent whose signer slots are not all signed is an unsigned parent (C10):
+		// no slot, a nil slot, an empty slot, alone and next to a signed one, first and last
+		for _, form := range []string{"full", "abbr"} {
+			for _, ptr := range []string{"p", "v"} {
+				for _, sigs := range []string{
+					"[]", "[csn]", "[cs(H(-;{};-;{});-)]", "[cs(H(-;{};-;{});_)]",
+					"[cs(H(-;{};-;{});01),cs(H(-;{};-;{});-)]", "[cs(H(-;{};-;{});-),cs(H(-;{};-;{});01)]",
+					"[cs(H(-;{};-;{});01),csn]", "[csn,cs(H(-;{};-;{});01)]",
+					"[cs(H(-;{};-;{});01),cs(H(-;{};-;{});02),cs(H(-;{};-;{});_)]",
+					"[cs(H(-;{};-;{});01)]", "[cs(H(-;{};-;{});01),cs(H(-;{};-;{});02)]",
+				} {
+					p("cs %s sm %s val:SM(H(-;{i64:1=a:-7};-;{});00;%s) H(-;{};-;{}) - T:-7:1 T:-7:1", form, ptr, sigs)
+				}
+			}
+		}
 		for i := 0; i < n; i++ {
 			genCSOp(r, gcfg, wcfg, p)
 		}
